@@ -34,6 +34,29 @@ def Diag.name : Diag → String
   | .appLen => "app-len" | .paramName => "param-name" | .paramConcrete => "param-concrete"
   | .notEqual => "not-equal"
 
+/-- the message the Rust pushes for the class (text before the first placeholder); `Props/Unify.lean`
+checks the list against the messages extracted from the source -/
+def Diag.message : Diag → String
+  | .occurs => "occurs check failed" | .varVar => "Failed to unify type variables"
+  | .varValue => "Failed to unify type variable" | .tupleLen => "Tuple types have different lengths"
+  | .arrayLen => "Array types have different lengths" | .funcLen => "Function types have different parameter lengths"
+  | .ctorName => "Constructor types are different" | .dynName => "Dyn trait types are different"
+  | .appLen => "Constructor types have different argument lengths" | .paramName => "Type parameters are different"
+  | .paramConcrete => "Cannot unify type parameter" | .notEqual => "Types are not equal"
+
+def Diag.all : List Diag :=
+  [.occurs, .varVar, .varValue, .tupleLen, .arrayLen, .funcLen, .ctorName, .dynName, .appLen, .paramName,
+   .paramConcrete, .notEqual]
+
+/-- the arms of the Rust `match (&l_norm, &r_norm)` this model was written against, in source order:
+`unifyNorm` handles the first two (the or-pattern `(TVar(a), t) | (t, TVar(a))` names `TVar` twice),
+`unifyCtor` the rest; the last but one is `(TParam, ty) | (ty, TParam)`, the last `_` -/
+def armOrder : List String :=
+  ["TVar,TVar", "TVar,TVar", "TUnit,TUnit", "TBool,TBool", "TInt32,TInt32", "TInt8,TInt8", "TInt16,TInt16",
+   "TInt64,TInt64", "TUint8,TUint8", "TUint16,TUint16", "TUint32,TUint32", "TUint64,TUint64", "TFloat32,TFloat32",
+   "TFloat64,TFloat64", "TString,TString", "TTuple,TTuple", "TArray,TArray", "TRef,TRef", "TVec,TVec", "TFunc,TFunc",
+   "TEnum,TEnum,TStruct,TStruct", "TDyn,TDyn", "TApp,TApp", "TParam,TParam", "TParam,TParam", "_"]
+
 /-- `InPlaceUnificationTable<TypeVar>` as observed through `find` / `probe_value` -/
 structure Store where
   /-- number of keys created (`new_key`) -/
